@@ -386,6 +386,14 @@ def finish(
                     # decided by running the real code on them -- a candidate that the real code handles is no finding
                     rec["dismissed_by_real_code"] = True
                     continue
+                e = match_known(known, fullkey)
+                if e is not None:
+                    # a listed finding whose symbolic counterexample did not show in the native re-run this time (behaviour
+                    # that depends on memory addresses, e.g. the iteration order of a set of objects): still the listed finding
+                    known_hit.setdefault(e.get("key") or e.get("pattern"), e)
+                    rec["known"] = e.get("key") or e.get("pattern")
+                    rec["note"] = "did not reproduce in the native re-run of this run"
+                    continue
                 harness_errors.append("%s: counterexample %s did not reproduce natively: %s" % (r["name"], c["kind"], json.dumps(c.get("native"), default=repr)[:400]))
                 continue
             e = match_known(known, fullkey)
